@@ -119,15 +119,24 @@ SendEff(c, d, k, a, cl, f) ==
        THEN /\ ubal' = [ubal EXCEPT ![c] = @ - a - f]
             /\ out'  = [out EXCEPT ![c][d] = @ + a]
             /\ UNCHANGED <<wbal, bind>>
-       ELSE /\ wbal' = [wbal EXCEPT ![c][d] = @ - a]
+       ELSE IF k = "back"
+       THEN /\ wbal' = [wbal EXCEPT ![c][d] = @ - a]
             /\ bind' = [bind EXCEPT ![c][d] = @ - a]
             /\ ubal' = [ubal EXCEPT ![c] = @ - f]
             /\ UNCHANGED out
+       ELSE /\ ubal' = [ubal EXCEPT ![c] = @ - f]          \* "none": a call-only packet, no tokens
+            /\ UNCHANGED <<out, wbal, bind>>
   /\ UNCHANGED <<h, receipts, acks, rbal, clients, marks, snaps>>
 
 Send(c, d, k, a, cl, f) ==
   /\ SendEff(c, d, k, a, cl, f)
   /\ last' = [act |-> "Send", res |-> Res(SendOK(c, d, k, a, f)), chain |-> c, dst |-> d, kind |-> k, amt |-> a, call |-> cl, fee |-> f]
+
+(* a call-only packet sent through an intermediary contract (a DApp, router or wallet calls endpoint.crossChainCall): *)
+(* the transaction's destination is not a system contract, the PacketSent log is the same                              *)
+SendVia(c, d, cl) ==
+  /\ SendEff(c, d, "none", 0, cl, 0)
+  /\ last' = [act |-> "Send", res |-> Res(SendOK(c, d, "none", 0, 0)), chain |-> c, dst |-> d, kind |-> "none", amt |-> 0, call |-> cl, fee |-> 0, via |-> "contract"]
 
 CommitEff(c) ==
   /\ h' = [h EXCEPT ![c] = @ + 1]
@@ -227,6 +236,9 @@ AckAccept(c, q, a, aalt, k, pf) ==
   /\ Provable(c, q.dst, k, pf)
   /\ [t |-> T(q), code |-> a] \in snaps[q.dst][k + 1].acks
   /\ aalt # "ackrelayer"
+  (* as the code behaves (observed, byte-code contracts): the refund path of an error acknowledgement fails for a    *)
+  (* packet without transfer data, so such an acknowledgement is never accepted and the commitment stays (DESIGN 9.7) *)
+  /\ (q.kind = "none" => a = 0)
 
 (* base: a sent packet p; a is the acknowledgement code the message carries *)
 AckEff(c, p, a, alt, aalt, k, pf, s) ==
@@ -261,6 +273,8 @@ WrittenCode(p) == IF \E x \in acks[p.dst] : x.t = T(p)
 Next ==
   \/ \E c \in Chains, d \in Chains \cup {"?"}, k \in Kinds, a \in Amts \cup {Big}, cl \in Calls, f \in Fees :
         c # d /\ <<c, k>> \in SendFrom /\ (d \in Chains => seq[c][d] <= MaxSeq) /\ Send(c, d, k, a, cl, f)
+  \/ \E c \in Chains, d \in Chains, cl \in Calls \cap {"ok", "revert"} :
+        c # d /\ <<c, "fwd">> \in SendFrom /\ seq[c][d] <= MaxSeq /\ SendVia(c, d, cl)
   \/ \E c \in Chains : Commit(c)
   \/ \E c \in Chains : \E d \in Others(c), k \in 0..MaxH, s \in Signers : UpdateClient(c, d, k, s)
   \/ \E c \in Chains : \E d \in Others(c) : Retoggle(c, d)
